@@ -1,10 +1,14 @@
 package vc
 
 import (
+	"encoding/json"
+	"flag"
 	"fmt"
 	"os"
+	"path/filepath"
 	"sort"
 	"strings"
+	"sync"
 
 	"golang.org/x/tools/go/ssa"
 )
@@ -125,4 +129,148 @@ func modelSummary(model string, inputs []string) string {
 	return strings.Join(out, "\n")
 }
 
-func CmdSweep(args []string) int { return 2 }
+// CmdSweep: zero-annotation safety sweep over the functions defined in the
+// given files; prints which functions are clean (all safety obligations
+// discharged) and, with -emit, the nopanic enrolment lines per package.
+func CmdSweep(args []string) int {
+	fs := flag.NewFlagSet("sweep", flag.ExitOnError)
+	repo := fs.String("repo", "/repo", "repository")
+	prop := fs.String("property", "", "property id (anchor files are read from properties.jsonl)")
+	filesArg := fs.String("files", "", "comma separated files relative to the repo (overrides property anchors)")
+	emit := fs.Bool("emit", false, "print nopanic lines for clean functions")
+	verifDir := fs.String("verif", "/verif", "verif directory")
+	fs.Parse(args)
+	var files []string
+	if *filesArg != "" {
+		files = strings.Split(*filesArg, ",")
+	} else {
+		files = anchorFiles(filepath.Join(*verifDir, "properties.jsonl"), *prop, *repo)
+	}
+	want := map[string]bool{}
+	pkgs := map[string]bool{}
+	for _, f := range files {
+		abs := filepath.Join(*repo, f)
+		want[abs] = true
+		pkgs["./"+filepath.Dir(f)] = true
+	}
+	e, err := NewEngine(Options{RepoDir: *repo, Prop: *prop, Tier: "quick", StrBytes: true}, sortedKeys(pkgs))
+	if err != nil {
+		fmt.Fprintln(os.Stderr, "load:", err)
+		return 2
+	}
+	work, _ := os.MkdirTemp("", "gvc-sweep-")
+	defer os.RemoveAll(work)
+	var fns []*ssa.Function
+	for _, sp := range e.SSAPkgs {
+		if sp == nil || !e.isRepoPkg(sp.Pkg) {
+			continue
+		}
+		for fn := range e.allFuncsOf(sp) {
+			if fn.Blocks == nil || fn.Synthetic != "" {
+				continue
+			}
+			pos := e.Prog.Fset.Position(fn.Pos())
+			if want[pos.Filename] {
+				fns = append(fns, fn)
+			}
+		}
+	}
+	sort.Slice(fns, func(i, j int) bool { return funcDisplayName(fns[i]) < funcDisplayName(fns[j]) })
+	var vcs []*VC
+	for _, fn := range fns {
+		vcs = append(vcs, e.VerifyFunc(fn))
+	}
+	stats := &SolveStats{}
+	sem := make(chan struct{}, 16)
+	cfg := SolverCfg{WorkDir: work, BatchMs: 5000, SingleMs: 10000}
+	var wg sync.WaitGroup
+	for _, v := range vcs {
+		v := v
+		wg.Add(1)
+		go func() {
+			defer wg.Done()
+			v.Solve(cfg, stats, sem)
+		}()
+	}
+	wg.Wait()
+	clean := map[string][]string{}
+	nclean, nbad := 0, 0
+	for i, v := range vcs {
+		fn := fns[i]
+		bad := v.unsupp != ""
+		for _, o := range v.obls {
+			if o.Cover && !strings.HasSuffix(o.Name, "/cover/entry") {
+				continue
+			}
+			if o.Status != "proved" && o.Status != "cover-unknown" {
+				bad = true
+			}
+		}
+		if bad {
+			nbad++
+			fmt.Printf("NOT-CLEAN %s %s\n", v.name, v.unsupp)
+			for _, o := range v.obls {
+				if o.Status != "proved" && o.Status != "cover-unknown" {
+					fmt.Printf("      %s %s\n", o.Status, o.Name)
+				}
+			}
+			continue
+		}
+		nclean++
+		clean[fn.Pkg.Pkg.Path()] = append(clean[fn.Pkg.Pkg.Path()], fn.RelString(fn.Pkg.Pkg))
+	}
+	fmt.Printf("sweep: %d functions, %d clean, %d not clean\n", len(vcs), nclean, nbad)
+	if *emit {
+		for _, p := range sortedKeysS(clean) {
+			fmt.Printf("### %s\n", p)
+			for _, r := range clean[p] {
+				fmt.Printf("//@ nopanic [%s] %s\n", *prop, r)
+			}
+		}
+	}
+	return 0
+}
+
+func sortedKeysS(m map[string][]string) []string {
+	var ks []string
+	for k := range m {
+		ks = append(ks, k)
+	}
+	sort.Strings(ks)
+	return ks
+}
+
+// anchorFiles reads the anchor file list of a property, expanding globs.
+func anchorFiles(propsPath, prop, repo string) []string {
+	data, err := os.ReadFile(propsPath)
+	if err != nil {
+		return nil
+	}
+	var out []string
+	for _, l := range strings.Split(string(data), "\n") {
+		var p struct {
+			ID      string `json:"id"`
+			Anchors struct {
+				Files []string `json:"files"`
+			} `json:"anchors"`
+		}
+		if json.Unmarshal([]byte(l), &p) != nil || p.ID != prop {
+			continue
+		}
+		for _, f := range p.Anchors.Files {
+			if strings.Contains(f, "*") {
+				ms, _ := filepath.Glob(filepath.Join(repo, f))
+				for _, m := range ms {
+					if strings.HasSuffix(m, "_test.go") || strings.HasSuffix(m, "contracts_verif.go") {
+						continue
+					}
+					rel, _ := filepath.Rel(repo, m)
+					out = append(out, rel)
+				}
+			} else if _, err := os.Stat(filepath.Join(repo, f)); err == nil {
+				out = append(out, f)
+			}
+		}
+	}
+	return out
+}
